@@ -1634,3 +1634,89 @@ Proof.
         destruct Hl as [-> _]; intros e [].
     + injection Hstep as <- <-. intros e [].
 Qed.
+
+(* ---------- responded_implies_given ---------- *)
+
+Lemma find_trk_In trks k : In k trks -> find_trk trks (trk_uuid k) <> None.
+Proof. intros Hi Hn. apply (find_trk_None _ _ Hn). apply in_map. exact Hi. Qed.
+
+(* where an accepted status comes from *)
+Lemma breach_status_accepted_cases sc t p :
+  status_accepted (breach_status sc t p) = true ->
+  (exists bh h, ti_get (r_index t) p = Some bh /\ ti_get_height (r_index t) bh = Some h) \/   (* in the index *)
+  (ti_get (r_index t) p = None /\
+   (says_in_mempool sc p = true \/                                                           (* in the node's mempool *)
+    (says_in_mempool sc p = false /\
+     ((exists r, aget (car_memo t) p = Some r /\ status_accepted r = true) \/                (* memoised accepted answer *)
+      (aget (car_memo t) p = None /\ snd (script_get sc p) = A_ok))))).                      (* the node took it *)
+Proof.
+  unfold breach_status. destruct (ti_get (r_index t) p) as [bh|].
+  - destruct (ti_get_height (r_index t) bh) as [h|] eqn:Eh; [|discriminate]. intros _. left. exists bh, h. split; [reflexivity|exact Eh].
+  - intros H. right. split; [reflexivity|].
+    destruct (says_in_mempool sc p); [left; reflexivity|right]. split; [reflexivity|].
+    destruct (aget (car_memo t) p) as [r|]; [left; eauto|right]. split; [reflexivity|].
+    unfold send_status in H. destruct (snd (script_get sc p)) as [|c]; [reflexivity|].
+    repeat match type of H with context [if ?b then _ else _] => destruct b end; discriminate.
+Qed.
+
+Lemma add_update_user_trks t u :
+  match gk_add_update_user t u with Ok _ t' | Abort _ t' => db_trks t' = db_trks t /\ reorged t' = reorged t end.
+Proof.
+  unfold gk_add_update_user. destruct (gk_get t u) as [ui|].
+  - destruct (u32_add (u_slots ui) (c_slots (cfg t))); split; reflexivity.
+  - destruct (u32_add (gk_height t) (c_duration (cfg t))); [|split; reflexivity].
+    destruct (amem (db_users t) u); split; reflexivity.
+Qed.
+
+(* C02, responded_implies_given: a tracker appears (for a uuid that had none) only with a penalty
+   whose status — verdict by txid, in the state the step started from — is an accepted one: found
+   in the responder's index, in the node's mempool, or taken by the node (now, or earlier in this
+   block period). *)
+Theorem responded_implies_given le t o sc t' x :
+  Inv t -> step le t o sc = (t', x) -> not_abort x ->
+  forall k, In k (db_trks t') -> find_trk (db_trks t) (trk_uuid k) = None ->
+            status_accepted (breach_status sc t (t_penalty k)) = true.
+Proof.
+  intros HI Hstep Hna k Hk Hnone.
+  assert (Hsame : db_trks t' = db_trks t -> status_accepted (breach_status sc t (t_penalty k)) = true).
+  { intros He. rewrite He in Hk. exfalso. exact (find_trk_In _ _ Hk Hnone). }
+  destruct o as [u|signer loc b delay sig|signer loc|signer|hash txs|].
+  - cbn [step] in Hstep. pose proof (add_update_user_trks (set_rpc_log t []) u) as Hl.
+    destruct (gk_add_update_user (set_rpc_log t []) u); cbn [wrap] in Hstep; injection Hstep as <- <-;
+      apply Hsame, Hl.
+  - cbn [step] in Hstep. change (set_rpc_log t []) with (fresh t) in Hstep.
+    destruct (w_add_appointment sc (fresh t) signer loc b delay sig) as [r t1|] eqn:Ew; cbn [wrap] in Hstep;
+      injection Hstep as <- <-; [|destruct Hna].
+    apply w_add_appointment_inner in Ew.
+    destruct Ew as [[-> _]|[u [ui [av [t2 [_ [_ [_ [_ [Hsu [_ Hst]]]]]]]]]]]; [apply Hsame; reflexivity|].
+    unfold same_but_users in Hsu. cbn in Hsu.
+    assert (Hk2 : db_trks t = db_trks t2) by apply Hsu.
+    destruct (ti_get (w_cache (fresh t)) loc) as [d|].
+    + destruct (store_triggered_trks sc t2 _ d t1 Hst k Hk) as [Hold|[p [_ [-> Hacc]]]].
+      * rewrite <- Hk2 in Hold. exfalso. exact (find_trk_In _ _ Hold Hnone).
+      * cbn [new_trk t_penalty]. rewrite <- Hacc. f_equal. apply breach_status_core; apply Hsu.
+    + apply store_appointment_spec in Hst. subst t1. apply Hsame. symmetry. exact Hk2.
+  - destruct (get_unchanged le t sc signer loc) as [r Hr]. rewrite Hr in Hstep. injection Hstep as <- <-.
+    apply Hsame. reflexivity.
+  - destruct (getsub_unchanged le t sc signer) as [r Hr]. rewrite Hr in Hstep. injection Hstep as <- <-.
+    apply Hsame. reflexivity.
+  - destruct (connect_ok le t hash txs sc t' x Hstep Hna) as [tg [tw [Eg [Ew Er]]]].
+    assert (HIg : Inv tg).
+    { pose proof (gk_block_connected_pres Inv (sa_block Inv inv_stable) (fresh t) (gk_height t + 1) (inv_fresh t HI)) as Hp.
+      rewrite Eg in Hp. exact Hp. }
+    destruct (gk_block_connected_spec _ _ _ Eg) as [out [_ [_ [_ [Hkg [Heng _]]]]]].
+    cbn [db_trks fresh set_rpc_log] in Hkg. unfold same_engine in Heng. cbn in Heng.
+    destruct (w_block_connected_frame sc tg hash txs _ tw HIg Ew)
+      as [_ [_ [_ [_ [_ [_ [_ [_ [_ [_ [Hnewk _]]]]]]]]]]].
+    pose proof (r_block_connected_rinv tw txs _ le sc _ t' (keys_of_index_block hash txs) Er) as RI.
+    destruct (rinv_origin _ _ _ _ k RI Hk) as [k0 [Hk0 Hid]]. apply trk_id_inj in Hid. destruct Hid as [Hu0 [_ Hp0]].
+    destruct (Hnewk k0 Hk0) as [Hold|[a [_ Hm]]].
+    + exfalso. rewrite Hkg in Hold. apply filter_In in Hold. destruct Hold as [Hold _].
+      rewrite <- Hu0 in Hnone. exact (find_trk_In _ _ Hold Hnone).
+    + destruct Hm as [_ [_ [_ [_ [_ [Hacc _]]]]]]. rewrite <- Hp0, <- Hacc. f_equal.
+      apply breach_status_core; apply Heng.
+  - cbn [step] in Hstep. destruct (last_hash (set_rpc_log t [])) as [hash|].
+    + pose proof (disconnect_log hash (gk_height (set_rpc_log t [])) (set_rpc_log t [])) as Hl.
+      destruct (run_listeners _ _ _); cbn [wrap] in Hstep; injection Hstep as <- <-; apply Hsame, Hl.
+    + injection Hstep as <- <-. apply Hsame. reflexivity.
+Qed.
